@@ -51,3 +51,34 @@ Definition spec_b (x : input) (identity_produced : bool) : bool :=
       | Some eid, Some r => opt_eqb String.eqb eid (Some r) || own_endpoint_b (specs x) (binding x) r
       | _, _ => true
       end).
+
+(* ---------------------------------------------------------------------------------------------
+   The property over call sequences: whatever was called before — on this provider object or on
+   any other provider object of the process — every parse_authn_request_response call satisfies
+   [spec] with respect to the configuration of the object it was called on ("the provider's own
+   entityID", "the provider's own endpoints").  Calls that produce no identity carry no
+   obligation; a result of the wrong kind for a parse call is a failure. *)
+Definition spec_ev (o : op) (r : out) : Prop :=
+  match o, r with
+  | OParse x, RId b => spec x b
+  | OParse _, _ => False
+  | _, _ => True
+  end.
+
+Definition spec_trace (ops : list op) (rs : list out) : Prop := Forall2 spec_ev ops rs.
+
+Definition spec_ev_b (o : op) (r : out) : bool :=
+  match o, r with
+  | OParse x, RId b => spec_b x b
+  | OParse _, _ => false
+  | _, _ => true
+  end.
+
+Fixpoint all2 {A B} (f : A -> B -> bool) (l1 : list A) (l2 : list B) : bool :=
+  match l1, l2 with
+  | [], [] => true
+  | a :: r1, b :: r2 => f a b && all2 f r1 r2
+  | _, _ => false
+  end.
+
+Definition spec_trace_b (ops : list op) (rs : list out) : bool := all2 spec_ev_b ops rs.
